@@ -545,7 +545,7 @@ theorem cleanUrl_keeps_shape (v : Str)
   · left
     refine ⟨r.filter (fun c => !isUnsafeUrlChar c), ?_⟩
     rw [hr, List.dropWhile_cons_of_neg (by decide)]
-    simp [List.filter_cons, isUnsafeUrlChar]
+    simp [isUnsafeUrlChar]
   · right
     refine ⟨l, r.filter (fun c => !isUnsafeUrlChar c), ?_, hne, hall⟩
     have halpha_c0 : ∀ x, isAsciiAlpha x = true → isC0OrSpace x = false ∧ isUnsafeUrlChar x = false := by
@@ -581,7 +581,7 @@ theorem cleanUrl_keeps_shape (v : Str)
         intro y hy
         simp [(halpha_c0 y (hall y hy)).2]
       rw [hfl]
-      simp [List.filter_cons, isUnsafeUrlChar]
+      simp [isUnsafeUrlChar]
 
 /-- **the path `safe_urlsplit` returns is empty or starts with a slash** -/
 theorem safe_urlsplit_path_abs (u : Str) (sp : SplitResult) (h : safe_urlsplit u = some sp) :
